@@ -11,6 +11,7 @@ the RUN/OP streams (malformed programs, improper lists, wrong arities, every bud
 real crate under `catch_unwind` in a debug-assertions build.
 -/
 import ClvmProofs.Lemmas.Interp.OpProps
+import ClvmProofs.Lemmas.Interp.LiftChia
 
 namespace Clvm.Props.C25
 open Clvm Clvm.Interp
@@ -97,5 +98,43 @@ theorem traversePath_clean (b : Bytes) (env : Val) (e : Err) (h : traversePath b
       cases env with
       | atom _ _ => simp only [walk, Except.error.injEq] at h; exact h.symm
       | pair l r => simp only [walk] at h; exact ih _ _ h
+
+/-- **Operators are clean**: on well-formed argument lists no core operator (either build) and no
+unknown operator returns a panic, an `InternalError` or an abort, and results are well-formed. -/
+theorem core_op_clean (cfg : Cfg) (name : String) (f : OpFn) (h : coreOpByName cfg name = some f) :
+    OpClean f ∧ OpWf f := ⟨coreOps_clean cfg name f h, coreOps_wf cfg name f h⟩
+
+theorem unknown_op_clean (op : Bytes) : OpClean (opUnknown op) ∧ OpWf (opUnknown op) :=
+  ⟨opUnknown_clean op, opUnknown_wf op⟩
+
+/-- **`run_program` never reports an internal error and never panics**: for ChiaDialect with any
+flag set, any budget and fuel, any allocator counters, every well-formed program and environment:
+if the run fails, the error is not a panic, not an `InternalError`, not an abort.  None of the
+machine's own sites ("value stack empty", "environment stack empty", "allocator checkpoint stack
+empty", the two `expect`s of `exit_guard`, `atom_len` on a pair, the arity `unwrap`s, the final
+`pop`) is reachable (stack-shape invariant, `Lemmas/Interp/LiftShape.lean`).  Assumed of the
+cryptographic operators (`extra`): the same per-operator shapes. -/
+theorem run_program_no_internal (cfg : Cfg) (extra : String → Option OpFn)
+    (hec : ∀ name f, extra name = some f → OpClean f) (hew : ∀ name f, extra name = some f → OpWf f)
+    (F fuel : Nat) (c0 : Ctr) (p env : Val) (M : Nat) (hp : p.wf = true) (he : env.wf = true) (e : Err)
+    (h : runProgram cfg (chiaDialect cfg extra F) fuel c0 p env M = some (.error e)) :
+    Err.isInternal e = false :=
+  chia_machine_no_internal cfg extra hec hew F fuel c0 p env M hp he e h
+
+/-- a run that succeeds ends with exactly one value and all other stacks empty -/
+theorem final_state {cfg : Cfg} {d : Dialect} {fuel : Nat} {c1 : Ctr} {p env : Val} {mc cost0 C : Nat}
+    {s0 sF : MState} (hev : evalPair cfg d { ctr := c1 } p env = .ok (cost0, s0))
+    (hrun : runLoop cfg d mc fuel s0 cost0 = some (.ok (C, sF))) :
+    (∃ v, sF.valStack = [v]) ∧ sF.envStack = [] ∧ sF.softforkStack = [] ∧ sF.allocatorStack = 0 ∧
+      sF.opStack = [] :=
+  machine_final_state hev hrun
+
+/-- every tree built through the allocator is well-formed -/
+theorem ofTree_wf (t : Tree) : (Val.ofTree t).wf = true := by
+  induction t with
+  | atom b =>
+    simp only [Val.ofTree, Val.mkAtom, Val.newAtomTag]
+    cases h : Alloc.fitsInSmallAtom b <;> simp [Val.wf, h]
+  | pair l r ihl ihr => simp [Val.ofTree, Val.wf, ihl, ihr]
 
 end Clvm.Props.C25
